@@ -704,7 +704,7 @@ def main(tier: str) -> int:
     ])
     C.use_repo_sources()
     rng = random.Random(run.seed * 15485863 + 11)
-    n = 1500 if tier == "quick" else 12000
+    n = 1500 if tier == "quick" else 30000
     cases = []
     corpus = C.VERIF / "corpus" / f"{PID}.json"
     if corpus.exists():
@@ -751,7 +751,7 @@ def main(tier: str) -> int:
         run.add_sample({"case": {k: c[k] for k in ("clock", "cmds", "stats")},
                         "impl": {"snaps": o.get("snaps"), "stats": [s and s["snap"] for s in o.get("stats", [])][:2]}})
 
-    for sig, (i, (sg, what)) in first_bad.items():
+    for nsig, (sig, (i, (sg, what))) in enumerate(first_bad.items()):
         def pred(cand, sg=sg):
             try:
                 o2 = run_impl([cand], nproc=1)[0]
@@ -759,7 +759,8 @@ def main(tier: str) -> int:
             except Exception:
                 return False
             return bool(b) and b[0] == sg
-        small = shrink(cases[i], pred) if sg not in ("driver-error", "harness-note") else cases[i]
+        # shrink the first few findings only (each attempt is a fresh interpreter)
+        small = shrink(cases[i], pred) if (sg not in ("driver-error", "harness-note") and nsig < 2) else cases[i]
         o2 = run_impl([small], nproc=1)[0]
         b, _ = oracle(small, o2)
         run.violation(sg.replace(":", "-"), (b or (sg, what))[1],
@@ -786,6 +787,25 @@ def main(tier: str) -> int:
         run.violation("proof-broken", f"a {PID} proof obligation no longer checks: " + getattr(run, "proof_log", "")[-800:],
                       {"theorems": run.cov.get("theorems")}, found_input=False)
     return run.finish()
+
+
+def replay(path: str) -> int:
+    """Re-run the case stored in a replay file: implementation, oracle, model."""
+    C.use_repo_sources()
+    body = json.loads(Path(path).read_text())
+    case = body.get("case")
+    if not case:
+        print("replay file holds no case")
+        return 2
+    o = run_impl([case], nproc=1)[0]
+    bad, _ = oracle(case, o)
+    codes, err = coq_compare([case], [o])
+    print(f"oracle: {bad}")
+    print(f"model/implementation code: {codes[0]} (0 agree, 1 simulator part, 2 outside model, 3 statistics, 4 not representable) {err or ''}")
+    if bad:
+        print(f"VIOLATION property={PID} replay={path}")
+        return 1
+    return 0 if codes[0] in (0, 2) else 1
 
 
 if __name__ == "__main__":
